@@ -17,11 +17,21 @@ func newKVByKind[K comparable](c *core.Ctx, kind string, d *Dom[K]) *KV[K, int] 
 	r := c.R
 	cm := d.Cmps[r.Intn(len(d.Cmps))]
 	var a *KV[K, int]
+	// half of the natural-order cases of an ordered key type use the
+	// constructor without a comparator argument
+	var mk func() any
+	builtin := func(order int) func() any {
+		if cm.Name == "natural" && d.Builtin != nil && (c.Index/7)%2 == 0 {
+			c.Count("ctor:builtin-comparator", 1)
+			return func() any { return d.Builtin(kind, order) }
+		}
+		return nil
+	}
 	switch kind {
 	case "RedBlackTree":
-		a = newRBT[K, int](cm)
+		a = newRBTOn[K, int](cm, builtin(0))
 	case "AVLTree":
-		a = newAVL[K, int](cm)
+		a = newAVLOn[K, int](cm, builtin(0))
 	case "BTree":
 		order := btreeOrders[r.Intn(len(btreeOrders))]
 		if r.Bool() {
@@ -32,10 +42,10 @@ func newKVByKind[K comparable](c *core.Ctx, kind string, d *Dom[K]) *KV[K, int] 
 			order = []int{1000, 10000, 1 << 31, 1<<31 + 1, math.MaxInt - 1, math.MaxInt}[r.Intn(6)]
 			c.Count("btree-order:extreme", 1)
 		}
-		a = newBTree[K, int](order, cm)
+		a = newBTreeOn[K, int](order, cm, builtin(order))
 		c.Count("btree-order:"+itoa(order), 1)
 	case "TreeMap":
-		a = newTreeMap[K, int](cm)
+		a = newTreeMapOn[K, int](cm, builtin(0))
 	case "HashMap":
 		a = newHashMap[K, int]()
 	case "LinkedHashMap":
@@ -43,7 +53,11 @@ func newKVByKind[K comparable](c *core.Ctx, kind string, d *Dom[K]) *KV[K, int] 
 	case "HashBidiMap":
 		a = newHashBidi[K, int]()
 	case "TreeBidiMap":
-		a = newTreeBidi[K, int](cm, intCmps[r.Intn(len(intCmps))])
+		if mk = builtin(0); mk != nil {
+			a = newTreeBidiOn[K, int](cm, intCmps[0], mk)
+		} else {
+			a = newTreeBidi[K, int](cm, intCmps[r.Intn(len(intCmps))])
+		}
 	}
 	if a.Order > 0 {
 		c.Begin(a.Name, "NewWith", a.Order, a.CmpName)
@@ -51,6 +65,14 @@ func newKVByKind[K comparable](c *core.Ctx, kind string, d *Dom[K]) *KV[K, int] 
 		c.Begin(a.Name, "New", a.CmpName)
 	}
 	return a
+}
+
+func sortedKind(kind string) bool {
+	switch kind {
+	case "RedBlackTree", "AVLTree", "BTree", "TreeMap", "TreeBidiMap", "TreeSet":
+		return true
+	}
+	return false
 }
 
 func largeFor(kind, tier string) int {
@@ -91,6 +113,10 @@ func runC01(c *core.Ctx) {
 		runHugeTree(c, h, hugeN(c.Tier), func(m *KVMon[int, int]) { m.Map = true })
 		return
 	}
+	if j := c.Index - len(exhaustivePlans(c.Tier)) - hugeCases; j >= 0 && j < wideBTreeCases {
+		runWideBTree(c, j, func(m *KVMon[int, int]) { m.Map = true })
+		return
+	}
 	kind := kvKinds[c.Index%len(kvKinds)]
 	if c.Index%len(kvKinds) >= 4 && (c.Index/len(kvKinds))%2 == 1 {
 		kind = kvKinds[(c.Index/len(kvKinds)/2)%3] // weight towards the three trees
@@ -99,8 +125,19 @@ func runC01(c *core.Ctx) {
 		expectPanic(c, "BTree", "New", func() { btree.New[int, int](c.R.Range(-1, 2)) })
 	}
 	setup := func(m *KVMon[int, int]) { m.Map = true; m.Bidi = m.Inv != nil }
-	if (c.Index/3)%5 == 4 {
+	switch kt := (c.Index / 3) % 10; {
+	case kt == 4:
 		runKVCase(c, kind, StrDom(c.R.Range(4, 12)), strKey, func(m *KVMon[string, int]) { m.Map = true; m.Bidi = m.Inv != nil })
+		return
+	case kt == 9 && (c.Index/30)%2 == 0 && sortedKind(kind):
+		// float keys incl. NaN, the infinities and both zeros: only the
+		// comparator may decide which key is which (== is not reflexive)
+		c.Count("keytype:float", 1)
+		runKVCase(c, kind, FKeyDom(c.R.Range(4, 12)), floatKey, func(m *KVMon[float64, int]) { m.Map = true; m.Bidi = m.Inv != nil })
+		return
+	case kt == 9:
+		c.Count("keytype:struct", 1)
+		runKVCase(c, kind, StructDom(c.R.Range(4, 14)), structKey, func(m *KVMon[SK, int]) { m.Map = true; m.Bidi = m.Inv != nil })
 		return
 	}
 	runKVCase(c, kind, IntDom(c.R.Range(4, 12)), intKey, setup)
@@ -115,18 +152,21 @@ func init() {
 		Cases: func(tier string) int { return tierN(tier, 30000, 600000) },
 		Run:   runC01,
 		Rule: "the first cases explore small universes exhaustively: for RedBlackTree, AVLTree (k <= 8 keys quick / 10 thorough) and BTree of order 3..6 (k <= 9 / 11, orders up to 8) every state reachable from the empty tree by Put/Remove is visited breadth-first and every call is made from it under the monitor (see exhaustive_small_scope). The other cases: " +
-			"one container per case (RedBlackTree, AVLTree, BTree of order 3..12,16,32,64, TreeMap, HashMap, LinkedHashMap, HashBidiMap, TreeBidiMap; natural, reversed or coarsened comparator; int or string keys) driven by one workload family: " +
+			"one container per case (RedBlackTree, AVLTree, BTree of order 3..12,16,32,64, TreeMap, HashMap, LinkedHashMap, HashBidiMap, TreeBidiMap; natural, reversed, coarsened or un-normalised comparator (results up to math.MinInt/MaxInt); int, string, struct or - ordered containers - float64 keys incl. NaN, +-Inf, +-0) driven by one workload family: " +
 			"dense random Put/Remove/Get/Clear over a 4-12 key alphabet, build-then-drain in six order families, churn at a fixed size, sliding window, one-sided drain; ~70% of sizes <= 24, ~25% <= 300, ~5% up to 1500 (quick) / 5000 (thorough). " +
 			"Values are unique per Put. After every call: Get of the touched key and 5 probe keys, Size, Empty; Keys/Values (exactly-once, alignment) on every call while n <= 64, every 16th otherwise; remove-absent compares full snapshots. " +
 			"Every case is non-trivial (>= 30 calls incl. removals of present keys); distinct = distinct hash of the call list.",
 		Floors: func(tier string, m map[string]int64) []string {
 			f := &floorCheck{m: m}
 			exhaustiveFloors(tier, f)
+			f.atLeast("obs:wide-btree-cases", wideBTreeCases)
 			f.atLeast("remove:RedBlackTree-two-children", 1000)
 			f.atLeast("remove:AVLTree-two-children", 1000)
 			f.atLeast("remove:BTree-inner-node", 1000)
 			f.atLeast("obs:remove-absent", 1000)
 			f.atLeast("obs:Keys+Values", 50000)
+			f.atLeast("keytype:float", 500)
+			f.atLeast("keytype:struct", 500)
 			for _, k := range kvKinds {
 				f.atLeast("call:"+k+".Put", 2000)
 				f.atLeast("call:"+k+".Remove", 1000)
@@ -138,7 +178,7 @@ func init() {
 		},
 		Files: kvFiles,
 		Assumptions: []string{
-			"comparators are strict weak orders (natural, reversed, coarsened); key types int and string, values int",
+			"comparators are strict weak orders (natural, reversed, coarsened, un-normalised); key types int, string, struct and (ordered containers) float64 incl. NaN; values int",
 			"which representative of a comparator class Keys() reports is not constrained beyond having been Put",
 			"a clean run says the property held on the executed histories only",
 		},
